@@ -80,6 +80,11 @@ package version
 //@   assume-ensures (result1 == nil) <==> uf_isver(v)
 //@   assume-ensures result1 == nil ==> (result0.Major == uf_vmajor(v) && result0.Minor == uf_vminor(v))
 //@   ensures result0 != nil ==> fresh(result0)
+// "version strings parse to (major, minor) pairs ordered numerically": the two segments are the
+// parts around the first dot, read as decimal numbers of 64 bits (the numeric value itself is
+// strconv's, assumed).
+//@   at-call strings.SplitN assert arg0 == v && arg1 == "." && arg2 == 2
+//@   at-call strconv.ParseUint assert arg1 == 10 && arg2 == 64
 //@   modifies nothing
 //@   props C09
 
